@@ -127,7 +127,17 @@ def _field(i, n):
     return 'mid'
 
 
-def _check(res, name, m, x, dev, same_as=None):
+def _check(res, name, m, x, dev, same_as=None, opts=None):
+    if opts:
+        o = outcome(m.validate, x, **opts)
+        if o[0] == 'ok' and isinstance(o[1], str):
+            if not o[1].isascii() and not all(c.isascii() or c in NATIONAL_LETTERS.get(name, '') for c in o[1]):
+                res.viol(ID, 'non-ascii-result', name, 'validate', {'module': name, 'number': x, 'devclass': dev[1],
+                                                                     'options': {k: core.enc(v_) for k, v_ in opts.items()}},
+                         'validate(%r, **%r) returned %r' % (x, opts, o[1]), 'ASCII-only canonical number',
+                         excinfo='+'.join(sorted(opts)), devclass=dev[1], rank=[dev[0], len(x), x])
+            return 1
+        return 0
     o = outcome(m.validate, x)
     if o[0] == 'ok' and isinstance(o[1], str) and same_as is not None and o[1].isascii():
         # a character that carries the same value was translated: the number must be the one that the ASCII
@@ -181,6 +191,21 @@ def work(item):
                         n += 1
                         a = _check(res, name, m, x, (1, dc, base))
                         acc += a
+    # every non-default option of validate() (singly and combined): substitutions at every position of the documented numbers
+    from ..tables.options import option_sets, option_combos
+    osv = {}
+    for s, v in seedmod.seeds(name, 12):
+        osv.setdefault(len(v), (s, v))         # one documented number per length (with / without check characters ...)
+    for opts in option_sets(name, m.validate)[0][1:] + option_combos(name, m.validate):
+        for s, v in list(osv.values())[:4]:
+            for base in dict.fromkeys((v, s)):
+                ln = len(base)
+                for i in range(ln):
+                    for c in nums + list(letters if quick else alphabet.QUICK['special-letter']):
+                        x = base[:i] + c + base[i + 1:]
+                        n += 1
+                        tr += 1
+                        acc += _check(res, name, m, x, (2, 'option+sub:%s@%s' % (class_of(c), _field(i, ln)), base), opts=opts)
     # value-preserving substitutions on the E2 valid set (only a character with the same value can pass a
     # checksum, and corpus seeds may not have the right character at the right place)
     from .. import e2
@@ -239,5 +264,6 @@ def work(item):
 def replay(case):
     m = core.modules()[case['module']]
     res = Result()
-    _check(res, case['module'], m, case['number'], (0, case.get('devclass', ''), ''), same_as=case.get('ascii'))
+    _check(res, case['module'], m, case['number'], (0, case.get('devclass', ''), ''), same_as=case.get('ascii'),
+           opts={k: core.dec(v) for k, v in case.get('options', {}).items()} or None)
     return res['violations']
